@@ -234,7 +234,14 @@ func c12r1(c *core.Ctx) {
 				}
 				if g != nil && (cn(g) == "clampInt" || cn(g) == "clampFloat") {
 					// clamp argument must itself come from convert
-					return core.AllSources(call.Call.Args[1], func(x ssa.Value) bool {
+					_, vp := clampFunc(p, cn(g))
+					vi := 1
+					for k, q := range g.Params {
+						if q == vp {
+							vi = k
+						}
+					}
+					return core.AllSources(call.Call.Args[vi], func(x ssa.Value) bool {
 						cc, ok := x.(*ssa.Call)
 						return ok && core.Callee(cc) == f
 					})
@@ -284,19 +291,20 @@ func c12r2(c *core.Ctx) {
 			if ta, ok := i.(*ssa.TypeAssert); ok && types.Identical(ta.AssertedType, t) {
 				assertOK = true
 			}
-			if g := core.Callee(i); g != nil && strings.HasPrefix(cn(g), "clamp") && len(g.Params) == 2 && types.Identical(g.Params[1].Type(), t) {
-				clampOK = true
+			if g := core.Callee(i); g != nil && strings.HasPrefix(cn(g), "clamp") {
+				if _, vp := clampFunc(p, cn(g)); vp != nil && types.Identical(vp.Type(), t) {
+					clampOK = true
+				}
 			}
 		}
 		c.Check(assertOK && clampOK, key, uv.Pos(), fmt.Sprintf("%q: asserts %s and clamps with the %s clamp", v, t, t), fmt.Sprintf("the clamp case for %q does not assert/clamp with type %s (convert yields %s): a type assertion panics or bounds are skipped", v, t, t))
 	}
 	for _, name := range []string{"clampInt", "clampFloat"} {
-		f := p.Func("characteristic", "(*Characteristic)."+name)
+		f, val := clampFunc(p, name)
 		if f == nil {
 			c.Undecided(name, token.NoPos, "not found")
 			continue
 		}
-		val := f.Params[1]
 		var minV, maxV, minOK, maxOK ssa.Value
 		core.Instrs(f, func(i ssa.Instruction) {
 			ta, ok := i.(*ssa.TypeAssert)
@@ -313,10 +321,10 @@ func c12r2(c *core.Ctx) {
 					}
 				}
 			}
-			if _, ok := core.FieldLoad(ta.X, tChar, "MinValue"); ok {
+			if isBoundOf(ta.X, "MinValue") {
 				minV, minOK = v, okv
 			}
-			if _, ok := core.FieldLoad(ta.X, tChar, "MaxValue"); ok {
+			if isBoundOf(ta.X, "MaxValue") {
 				maxV, maxOK = v, okv
 			}
 		})
@@ -403,6 +411,61 @@ func c12r2(c *core.Ctx) {
 				"the "+spec.what+" is compared but not enforced (the value is returned unchanged, or the bound is consulted where it is not declared): values outside the declared range are stored")
 		}
 	}
+}
+
+// clampFunc finds the clamp for ints / floats: the method of Characteristic, or a function of the package under that name which is
+// handed the bounds ( clampInt(value, c.MinValue, c.MaxValue) ). val is its value parameter (the first of a numeric basic type).
+func clampFunc(p *core.Program, name string) (f *ssa.Function, val *ssa.Parameter) {
+	f = p.Func("characteristic", "(*Characteristic)."+name)
+	if f == nil {
+		f = p.Func("characteristic", name)
+	}
+	if f == nil {
+		return nil, nil
+	}
+	for _, pr := range f.Params {
+		if b, ok := pr.Type().Underlying().(*types.Basic); ok && b.Info()&types.IsNumeric != 0 {
+			return f, pr
+		}
+	}
+	return nil, nil
+}
+
+// isBoundOf: x (the operand of a comma-ok assertion in a clamp) is the declared bound field of the characteristic — loaded there, or
+// handed in by the only caller as that field of its characteristic.
+func isBoundOf(x ssa.Value, field string) bool {
+	if _, ok := core.FieldLoad(x, tChar, field); ok {
+		return true
+	}
+	if pr, ok := x.(*ssa.Parameter); ok {
+		if a := core.Active.SoleCallArg(pr); a != nil {
+			if _, ok := core.FieldLoad(a, tChar, field); ok {
+				return true
+			}
+		}
+		// several callers (one per clamp case of updateValue): every one of them hands in the field
+		es := core.Active.CallersOf(pr.Parent())
+		if len(es) > 1 {
+			all := true
+			for _, e := range es {
+				if e.Site == nil || e.Site.Common().StaticCallee() != pr.Parent() {
+					return false
+				}
+				for k, q := range pr.Parent().Params {
+					if q == pr {
+						if k >= len(e.Site.Common().Args) {
+							return false
+						}
+						if _, ok := core.FieldLoad(e.Site.Common().Args[k], tChar, field); !ok {
+							all = false
+						}
+					}
+				}
+			}
+			return all
+		}
+	}
+	return false
 }
 
 func flip(op token.Token) token.Token {
